@@ -24,6 +24,13 @@ says whether `fill` returned, raised `LenaStopFill` (state kept: Python objects 
 computes the branch afterwards) or raised another exception.  `stageFill e K` is `e.fill_into(K, value)`;
 `chainSink` is the `_Fill` chain of `FillSeq`.
 
+**Limits of this model** (recorded judgements, see also ASSUMPTIONS in `harness/props/c05.py`): a `Stage` is a pure
+function, so an element that keeps state between two calls of its `run` cannot be expressed — `RunIf` is covered with a
+stateless inner sequence only (`Spec.stateless`, `Spec.inScopeB`); accumulators are state machines `Acc` whose `compute`
+returns its values or raises; values are immutable (no aliasing, no `copy.deepcopy`/`copy_buf` of `Split`); flows end
+normally in the three drivers; Python `None` is represented by `quot 0 0` (`truthy`, `drivers/C05.lean`);
+`Count.fill_into` (counting) has no meaning here (`Spec.count` is never a pre-processing element).
+
 Imports only `LenaModel.Model.Flow` (and through it `LenaModel.Model.C17` for `Slice`). -/
 
 namespace Lena.C05
